@@ -24,7 +24,7 @@ def run(ctx, chk):
     chk.not_decided = ["pop order over arbitrary sequences beyond the primitives' shape"]
     Q = QueueAnalysis(ctx)
     Q.rule_push(chk, "P1", "P1")
-    Q.rule_pop(chk, "P1", "P1", "K4")
+    Q.rule_pop(chk, "P1", "P1", "K4", seq=True)
     Q.rule_remove_find(chk, "K4")
     Q.rule_constructors(chk, "P2")
     Q.rule_one_store(chk, "Y1")
